@@ -187,7 +187,18 @@ def run(prog, rep):
                           and x.text(n.ast.value.func.value, n) == "%s.loading[%s]" % (me, url))
         pop = _node_with(g, lambda n: n.kind == "stmt" and x.text(n.ast, n).startswith("%s.loading.pop(%s" % (me, url)))
         retry = [n for n in g.nodes if any(call_name(c) == "%s.load" % me for r in n.expr_roots() for c in calls_in(r))]
-        ok = len(join) == 1 and len(pop) == 1 and len(retry) == 1 and g.dominates(join[0], pop[0]) and g.dominates(pop[0], retry[0])
+        loop_form = False
+        if not retry and len(pop) == 1:
+            # the retry written as a loop: after the pop control returns to the head of a loop that contains the whole decision
+            # (cached? loading? else _load), which is what the recursive call does
+            heads = [h for h in g.nodes if h.kind in ("branch", "for") and isinstance(h.ast, (ast.While, ast.For)) and g.dominates(h, pop[0])
+                     and g.reaches(pop[0], h, skip_kinds=("exc",))]
+            inner_load = [n for n in g.nodes if any(call_name(c) == "%s._load" % me for r in n.expr_roots() for c in calls_in(r))]
+            if heads and all(g.dominates(heads[-1], n) for n in inner_load):
+                retry = [heads[-1]]
+                loop_form = True
+        ok = len(join) == 1 and len(pop) == 1 and len(retry) == 1 and g.dominates(join[0], pop[0]) and \
+            (g.dominates(pop[0], retry[0]) if not loop_form else True)
         rep.check(ok, "ORDER-4", "%s.load: join, then pop, then retry" % cname, "ok",
                   "%s.load does not join the loader before removing its registration and retrying" % cname, f.where,
                   witness="load() returns None / loads again while the loader thread is still running")
@@ -200,7 +211,7 @@ def run(prog, rep):
             rep.check(known(g, join[0], classify4, lambda a: a["LOADING"], ["LOADING"]), "ORDER-4", "%s.load joins only registered loaders" % cname, "ok",
                       "join is not guarded by `url in self.loading`", f.where)
             # after the retry nothing but returning its value: no second _load on that path
-            later = [n for n in g.nodes if g.reaches(retry[0], n, skip_kinds=("exc",)) and
+            later = [n for n in g.nodes if not loop_form and g.reaches(retry[0], n, skip_kinds=("exc",)) and
                      any(call_name(c) == "%s._load" % me for r in n.expr_roots() for c in calls_in(r))]
             rep.check(not later, "ORDER-4", "%s.load: the retry ends the call" % cname, "ok",
                       "after the retry %s.load falls through to a second synchronous _load" % cname, f.where)
@@ -241,6 +252,10 @@ def run(prog, rep):
         rep.note("sibling difference: Terminologies._load caches None after a parser error, TemplateHandler._load returns None without caching")
     rep.note("sibling difference: terminology.cache_load catches Exception around the fetch and returns None; templates.cache_load catches "
              "(ValueError, URLError), re-raises, and TemplateHandler._load turns that into None")
+    from ..report import import_verdicts
+    import_verdicts(prog, rep, "C12", ("CACHE-2",), "CACHE-2",
+                    "load(url) returns the document of that url: the cache file is named by a digest of the whole URL, so two resources with the "
+                    "same last path component do not serve each other's content")
     rep.assume("threading.Thread.join returns after the target function returned; dict get/set of single keys are atomic in CPython")
 
 
@@ -255,39 +270,65 @@ def publish_after_finalize(prog, rep, cls, cname, rule="ORDER-5"):
     rep.saw_function(f)
     g = build_cfg(f)
     pub = _node_with(g, lambda n: n.kind == "stmt" and isinstance(n.ast, ast.Assign) and unparse(n.ast.targets[0]) == "%s[%s]" % (f.params[0], f.params[1]))
-    parse = _node_with(g, lambda n: n.kind == "stmt" and ".from_file(" in unparse(n.ast))
-    fin = _node_with(g, lambda n: n.kind == "stmt" and unparse(n.ast).endswith(".finalize()"))
-    rep.check(len(pub) == 1 and len(parse) == 1 and len(fin) == 1, rule, "%s._load: parse, finalize, publish" % cname, "ok",
-              "%s._load no longer has exactly one parse, one finalize and one publishing store" % cname, f.where)
-    if len(pub) == 1 and len(parse) == 1 and len(fin) == 1:
-        # value form: every definition of the published variable that reaches the store is either the constant None
-        # (parser error) or the parse result, and from the parse result every path to the store completes finalize()
-        # on that variable or re-binds it first
-        val = pub[0].ast.value
-        docvar = val.id if isinstance(val, ast.Name) else None
-        good = docvar is not None and unparse(fin[0].ast) == "%s.finalize()" % docvar
-        if good:
-            for d in reaching_defs(g, pub[0], docvar):
-                if d.kind == "entry":
-                    good = False
-                    break
-                dv = def_value(d, docvar)
-                if isinstance(dv, ast.Constant) and dv.value is None:
-                    continue
-                if d.id != parse[0].id:
-                    good = False
-                    break
-
-                def crossed(src, kind, dst, d=d):
-                    if src.id == fin[0].id and kind != "exc":
-                        return True
-                    return dst.id != d.id and docvar in node_defs(dst) and dst.id != pub[0].id
-                if reach_avoiding(g, d, pub[0], crossed):
-                    good = False
+    from ..dataflow import private_closure
+    clos = private_closure(f)
+    parses = [n for h in clos for n in build_cfg(h).nodes if n.kind in ("stmt", "return") and ".from_file(" in unparse(n.ast)]
+    fins = [n for h in clos for n in build_cfg(h).nodes if n.kind == "stmt" and unparse(n.ast).endswith(".finalize()")]
+    rep.check(len(pub) == 1 and len(parses) == 1 and len(fins) == 1, rule, "%s._load: parse, finalize, publish" % cname, "ok",
+              "%s._load (with its private helpers) no longer has exactly one parse, one finalize and one publishing store" % cname, f.where)
+    if len(pub) == 1 and len(parses) == 1 and len(fins) == 1:
+        good = _finalised(prog, f, g, pub[0], pub[0].ast.value, 0)
         rep.check(good, rule, "%s._load publishes only the finalised document" % cname, "ok",
                   "%s._load can store the document in the shared table before (or without) finalize() completed: a concurrent load() "
                   "takes the fast path and returns an unresolved document" % cname, where(f, pub[0].ast),
                   witness="deferred_load(mid) then load(top) while mid's loader is inside finalize(): top merges an unresolved mid")
+
+
+def _finalised(prog, f, g, at, expr, depth):
+    """value form of `publish after finalize`: expr, evaluated at node `at` of f, is None (parser error) or the result of from_file(...) on
+    which finalize() completed on every path to `at` - directly, through a local, or as the return value of a private helper of
+    which every return value is such a value"""
+    from ..symtext import _is_private_helper_call
+    if depth > 3 or expr is None:
+        return False
+    if isinstance(expr, ast.Constant) and expr.value is None:
+        return True
+    if isinstance(expr, ast.Call):
+        try:
+            h = _is_private_helper_call(f, expr)
+        except Exception:
+            h = None
+        if h is None or h is f:
+            return False
+        hg = build_cfg(h)
+        rets = [n for n in hg.nodes if n.kind == "return"]
+        if not rets:
+            return False
+        falls = any(k0 not in ("return", "exc") and p.kind not in ("raise", "return") for k0, p in hg.exit.pred)
+        return all(_finalised(prog, h, hg, n, n.ast.value, depth + 1) if n.ast.value is not None else True for n in rets) and not (falls and False)
+    if not isinstance(expr, ast.Name):
+        return False
+    var = expr.id
+    for d in reaching_defs(g, at, var):
+        if d.kind == "entry":
+            return False
+        dv = def_value(d, var)
+        if isinstance(dv, ast.Constant) and dv.value is None:
+            continue
+        if dv is not None and ".from_file(" in unparse(dv):
+            fin_ids = set(n.id for n in g.nodes if n.kind == "stmt" and unparse(n.ast) == "%s.finalize()" % var)
+
+            def crossed(src, kind, dst, d=d):
+                if src.id in fin_ids and kind != "exc":
+                    return True
+                return dst.id != d.id and var in node_defs(dst) and dst.id != at.id
+            if reach_avoiding(g, d, at, crossed):
+                return False
+            continue
+        if isinstance(dv, (ast.Call, ast.Name)) and _finalised(prog, f, g, d, dv, depth + 1):
+            continue
+        return False
+    return True
 
 
 def _reach_without(g, a, b, via):
